@@ -132,6 +132,28 @@ class FakeConn:
             self.closed = True
             self.world.events.append(("C", self.uid))
 
+    def shutdown(self, how):
+        # as the kernel does it: EBADF on a closed descriptor, ENOTCONN once the peer has reset the connection (the states
+        # in which the fake makes reads / writes fail), success otherwise; no event: nothing is written
+        if self.closed:
+            raise OSError(errno.EBADF, "Bad file descriptor")
+        if self.read_error is not None or self.fail_write is not None:
+            raise OSError(errno.ENOTCONN, "Transport endpoint is not connected")
+
+    def getpeername(self):
+        if self.closed:
+            raise OSError(errno.EBADF, "Bad file descriptor")
+        return ("127.0.0.1", 40000 + self.uid)
+
+    def getsockname(self):
+        return ("127.0.0.1", 7111)
+
+    def settimeout(self, t):
+        pass
+
+    def setblocking(self, flag):
+        pass
+
     def __hash__(self):
         return id(self)
 
@@ -312,10 +334,17 @@ def run_manager(rounds: List[Dict[str, Any]], **kw) -> Dict[str, Any]:
         if isinstance(e, (KeyboardInterrupt, SystemExit)):
             raise
         crash = f"{type(e).__name__}: {e}"
+    # run()'s `finally` closes every socket still in the table; on a crash these closes follow the events of the round in
+    # which the exception was raised and are not part of it: the observation of the crash round ends before them
+    crash_end = len(world.events)
+    if crash is not None:
+        while crash_end > 0 and world.events[crash_end - 1][0] == "C" and \
+                any(getattr(c, "uid", None) == world.events[crash_end - 1][1] for c in list(mgr.modules.keys())):
+            crash_end -= 1
     rtma_on = True
     try:
         rtma_on = bool(mgr.logger.enable_rtma)
     except Exception:
         pass
     return {"events": world.events, "marks": ss.round_marks, "crash": crash, "mgr": mgr, "world": world,
-            "rounds_played": ss.i, "rtma_log_enabled": rtma_on}
+            "rounds_played": ss.i, "rtma_log_enabled": rtma_on, "crash_end": crash_end}
